@@ -396,6 +396,7 @@ class StingyConfigurator(pg.All):
             pg.All,
             Any,
             Xor,
+            pg.ExactlyOne,
             pg.Not,
             pg.XNor,
             pg.Imply,
